@@ -415,6 +415,9 @@ type TypeInv struct {
 
 var fileTypeInvs []*TypeInv
 
+// abstraction functions: the ghost view of an object of the type is the value of the expression
+var fileAbsFns []*TypeInv
+
 var fileMacros []*Macro
 var rawMacros []struct{ name, params, body, where, pkg string }
 
@@ -463,6 +466,21 @@ func readContractFile(path, pkg string) ([]*Contract, error) {
 				}
 			}
 			fileMacros = append(fileMacros, &Macro{Name: m[1], Params: ps, Body: e, Pkg: pkg})
+			cur = nil
+			last = nil
+			continue
+		}
+		if strings.HasPrefix(body, "absfn ") {
+			// //@ absfn InMemoryRepository :: self.storage    (the ghost view(self) of the interface contract is this field)
+			f := strings.SplitN(strings.TrimPrefix(body, "absfn "), "::", 2)
+			if len(f) != 2 {
+				return nil, fmt.Errorf("%s: cannot parse absfn %q", where, body)
+			}
+			x, err := parseSpec(strings.TrimSpace(f[1]))
+			if err != nil {
+				return nil, fmt.Errorf("%s: %v", where, err)
+			}
+			fileAbsFns = append(fileAbsFns, &TypeInv{Type: pkg + "." + strings.TrimSpace(f[0]), Expr: x, Where: where})
 			cur = nil
 			last = nil
 			continue
